@@ -242,4 +242,36 @@ example : (∀ fd ∈ (⟨[⟨[1], [[2]]⟩]⟩ : Form).fields, fd.var ≠ formT
 theorem C20_total_only_form_type (t : Bytes) : renderForm ⟨[⟨formTypeVar, [t]⟩]⟩ = t ++ lt := by
   simp [renderForm, Form.formType, Form.dataFields, formTypeVar]
 
+/-! ## Round D: size.  Sorting moves whole items: nothing is dropped, repeated or cut, whatever
+the lengths of the strings and whether or not keys are equal. -/
+
+/-- The bytes `AppendHash` writes are a rearrangement of the bytes of the items written in the
+given order - for every info (equal keys, empty forms, no `FORM_TYPE` included). -/
+theorem C20_bytes_conserved (i : Info) : (verImpl i).Perm (verGiven i) := by
+  unfold verImpl verGiven sortStrings
+  exact List.Perm.append (List.Perm.append (flatMap_sort_perm _ _ _) (flatMap_sort_perm _ _ _))
+    ((flatMap_sort_perm _ _ _).trans (flatMap_perm_congr _ renderForm_perm))
+
+/-- The number of bytes hashed: every string of the info once and one separator each (four for
+an identity) - whatever the order and the lengths.  The harness demands this of the real code
+on every case (oracle `equals-spec/length`). -/
+theorem C20_length (i : Info) : (verImpl i).length = i.size := by
+  rw [(C20_bytes_conserved i).length_eq]
+  unfold verGiven Info.size
+  rw [List.length_append, List.length_append,
+    length_flatMap_eq renderId Identity.size, length_flatMap_eq renderFeat strSize,
+    length_flatMap_eq _ _ _ renderFormGiven_length]
+  · intro a; simp [renderFeat, strSize, lt]
+  · intro a; simp [renderId, Identity.size, lt, slash]; omega
+
+/-- so the length does not depend on the order at the top level even with equal keys -/
+theorem C20_length_order_independent (a b : Info) (h1 : a.ids.Perm b.ids) (h2 : a.feats.Perm b.feats)
+    (h3 : a.forms.Perm b.forms) : (verImpl a).length = (verImpl b).length := by
+  rw [C20_length, C20_length]
+  unfold Info.size
+  rw [(h1.map Identity.size).sum_nat, (h2.map strSize).sum_nat, (h3.map Form.size).sum_nat]
+
+example : (verImpl ⟨[⟨[1], [2], [], [3, 4]⟩], [[5, 6]], [⟨[⟨formTypeVar, [[7]]⟩, ⟨[8], [[9], []]⟩]⟩, ⟨[]⟩]⟩).length = 19 := by
+  rw [C20_length]; decide
+
 end XmppModel.Props.C20
